@@ -256,9 +256,9 @@ func (g *c15Gen) trees(t byte, n int) []*ref.Expr {
 	add := func(op string, lt, rt byte, nl int) {
 		for _, l := range g.trees(lt, nl) {
 			for _, r := range g.trees(rt, n-1-nl) {
-				if ref.Prec(op) == 3 && (l.K == "not" || r.K == "not" || (l.K == "key" && r.K == "key")) {
-					// engine quirks outside this property: a comparison refuses a
-					// `!` operand and the same field on both sides
+				if ref.Prec(op) == 3 && l.K == "key" && r.K == "key" {
+					// engine quirk outside this property: a comparison refuses
+					// the same field on both sides
 					continue
 				}
 				out = append(out, ref.Bin(op, l, r))
@@ -435,6 +435,28 @@ func c15Trees(t core.Tier) []c15Tree {
 			}
 		}
 	}
+	// chains of field accesses: every subscript at its own level, in order
+	{
+		js := func() *ref.Expr { return ref.Call("json", ref.Value()) }
+		ix := ref.Idx
+		for _, e := range []*ref.Expr{
+			ref.Bin("=", ix(ix(js(), ref.S("a")), ref.S("b")), ref.S("x")),
+			ref.Bin("=", ix(ix(js(), ref.S("l")), ref.N(1)), ref.S("x")),
+			ref.Bin("=", ix(ix(ix(js(), ref.S("a")), ref.S("b")), ref.N(0)), ref.S("x")),
+			ref.Bin("=", ix(ix(ix(js(), ref.S("a")), ref.N(2)), ref.S("c")), ref.S("x")),
+			ref.Bin("=", ix(ix(js(), ref.S("a")), ref.S("a")), ix(ix(js(), ref.S("b")), ref.S("a"))),
+			ref.In(ix(ix(js(), ref.S("o")), ref.S("b")), ref.S("x"), ix(ix(js(), ref.S("b")), ref.S("o"))),
+			ref.Bin("=", ref.Call("upper", ix(ix(ix(ix(js(), ref.S("a")), ref.S("b")), ref.S("c")), ref.N(3))), ref.S("X")),
+			ref.Bin("=", ix(ix(ref.Call("json", ix(ix(js(), ref.S("p")), ref.S("q"))), ref.S("r")), ref.N(0)), ref.S("x")),
+			ref.Bin("^=", ix(ix(ref.Call("split", ref.Value(), ref.S(",")), ref.N(0)), ref.N(1)), ref.S("x")),
+		} {
+			k := canonTree(e)
+			if !seen[k] {
+				seen[k] = true
+				out = append(out, c15Tree{e: e, t: 'B'})
+			}
+		}
+	}
 	// references to named select fields: the printed form must name the same
 	// field again, whatever the name looks like (reserved word, upper case,
 	// digits, blanks, operator characters)
@@ -446,6 +468,14 @@ func c15Trees(t core.Tier) []c15Tree {
 			ref.Bin("&", ref.Bin("!=", ref.S("y"), nm()), ref.Bin("=", ref.Key(), ref.S("k"))),
 		} {
 			out = append(out, c15Tree{e, 'B', "key, value as " + ref.QuoteName(name)})
+		}
+		// the same name where no select field defines it (accepted inside call
+		// arguments, where it stands for its own text)
+		for _, e := range []*ref.Expr{
+			ref.Bin("=", ref.Call("upper", nm()), ref.S("X")), ref.Bin("=", ref.Call("join", ref.S("-"), nm(), ref.Key(), nm()), ref.S("x")),
+			ref.In(ref.Call("lower", nm()), ref.S("x"), ref.Call("upper", nm())),
+		} {
+			out = append(out, c15Tree{e: e, t: 'B'})
 		}
 	}
 	c15TreesCache[string(t)] = out
